@@ -355,7 +355,6 @@ func c11Run(c *caseCtx) (res caseResult) {
 	return res
 }
 
-
 // c11Storm: many goroutines issue echo requests at the same time; the creation of
 // the response processes races.
 func c11Storm(c *caseCtx) (res caseResult) {
